@@ -1,5 +1,5 @@
 /-
-  JRV.Model.ServerLife — life cycle of a (pooled) JSON-RPC server (C12).
+  JRV.Model.ServerLife — life cycle of a plain or pooled JSON-RPC server (C12).
 
   Environment model of `socketserver.BaseServer` (CPython 3.12), assumed and observed on real sockets:
     serve_forever : is_shut_down.clear(); loop { select(poll); if shutdown_request: break; handle ready
@@ -9,12 +9,32 @@
     serve_forever : self.__serving = True; try: BaseServer.serve_forever() finally: self.__serving = False
     process_request: pool.enqueue(handler task for that connection)
     server_close  : if self.__serving: shutdown(); close the listening socket; pool.stop()
-  The request pool is abstracted to what C09–C11 establish about it: every accepted handler task runs exactly
-  once, and `stop()` returns once the running tasks have finished, after which no worker is alive.
+  and `SimpleJSONRPCServer` (`Cfg.plain`): no pool — `process_request` runs the handler of the accepted connection
+  on the serving thread itself (which therefore neither accepts nor looks at `shutdown_request` meanwhile);
+  `server_close` only closes the listening socket.
+  The request pool is abstracted to what C09–C11 establish about it: every accepted handler task runs at most
+  once, and `stop()` returns once the begun tasks have ended (it joins the worker threads), after which no worker
+  is alive; tasks that were still queued are dropped.
+
+  A connection (HTTP/1.0 by default: one request, then the handler closes it; `keepAlive` = a request-handler class
+  speaking HTTP/1.1, the handler reads on after replying) goes through
+      queued    accepted, its handler task waits in the pool queue                       (pooled only)
+      awaiting  a worker (plain: the serving thread) runs the handler, which is waiting for / reading the request:
+                the exchange has begun and is IN FLIGHT (it completes when the client finishes sending and is
+                answered, or disconnects) — a client that stays silent makes it an *idle connection*
+      running   the request has been read and is being dispatched: IN FLIGHT
+      closed    the handler has returned (reply written, or the client went away), the worker is free.
+  A request is one of `Kind`: a call that returns, a notification, a method raising an ordinary exception, a method
+  raising a `BaseException` outside `Exception` (SystemExit, KeyboardInterrupt, …), a malformed body (invalid
+  UTF-8 / JSON, truncated).  The reply is computed by the dispatcher from the connection's own body and the
+  server-wide dispatcher state (`State.disp`, the shared cell: registered functions, configuration, …) which the
+  handlers read.  `Cfg.sharedWrites` says whether the serve path stores into that shared state (the extracted
+  write-footprint of C13, `Generated.servePathSharedWrites`, is empty: `false`); `Cfg.catchAll` whether the
+  `except` clauses around the method call and around the exchange catch every `BaseException` (they are bare).
 
   One serving thread at most (the property's life-cycle histories serve once); any number of connections; any
-  interleaving of the serving thread, the closing thread, an optional external `shutdown()` caller and the
-  handler tasks.  A handler task computes `f body` for its own connection only (`f` = the sequential dispatcher).
+  interleaving of the serving thread, the closing thread, an optional external `shutdown()` caller, the handlers
+  and the clients.
 -/
 import JRV.Model.Json
 
@@ -35,12 +55,41 @@ inductive DPc where
   | idle | setReq | waitEvent | returned
 deriving Repr, DecidableEq
 
-/-- A connection: its request body, whether its handler task is queued / running / done, the reply written. -/
+/-- What the request sent on a connection is. -/
+inductive Kind where
+  | good | notify | failing | fatal | malformed
+deriving Repr, DecidableEq
+
+inductive Phase where
+  | queued | awaiting | running | closed
+deriving Repr, DecidableEq
+
+inductive Reply where
+  | result (v : Nat)      -- the dispatcher's result for this request
+  | empty                 -- notification: nothing to say
+  | error (v : Nat)       -- error object for this request (method raised)
+  | parseError            -- error object with id null (body not understood)
+deriving Repr, DecidableEq
+
+/-- Which server, and the two facts about the source the behaviour depends on. -/
+structure Cfg where
+  plain : Bool := false          -- SimpleJSONRPCServer (handlers on the serving thread) / PooledJSONRPCServer
+  sharedWrites : Bool := false   -- the serve path stores into shared dispatcher state
+  catchAll : Bool := true        -- the handlers around the method call and the exchange catch BaseException
+deriving Repr, DecidableEq
+
 structure Conn where
   body : Nat
-  started : Bool := false
-  reply : Option Nat := none
+  kind : Kind := .good
+  keepAlive : Bool := false
+  phase : Phase := .queued
+  reply : Option Reply := none
+  execs : Nat := 0               -- how many times the callable of the request was run
 deriving Repr, DecidableEq
+
+/-- The handler task of the connection has begun / has ended. -/
+def Conn.started (c : Conn) : Bool := c.phase != .queued
+def Conn.done (c : Conn) : Bool := c.phase == .closed
 
 structure State where
   serving : Bool := false          -- PooledJSONRPCServer.__serving
@@ -52,24 +101,47 @@ structure State where
   cpc : CPc := .idle
   dpc : DPc := .idle
   conns : List Conn := []
+  disp : Nat := 0                  -- shared dispatcher state read by every handler
+  handling : Option Nat := none    -- plain server: the connection whose handler the serving thread is inside
 deriving Repr, DecidableEq
 
 inductive Action where
   | startServe                 -- environment: a thread begins serve_forever()
   | serveStep                  -- the serving thread executes its next step
-  | accept (body : Nat)        -- serving loop: a ready connection is handed to the pool (process_request)
-  | handlerStart (i : Nat)     -- a pool worker begins connection i's handler task
-  | handlerFinish (i : Nat)    -- … and finishes it, writing the reply for that connection
+  | accept (body : Nat) (kind : Kind) (keepAlive : Bool)
+                               -- serving loop: a ready connection is accepted (pooled: handed to the pool)
+  | handlerStart (i : Nat)     -- pooled: a pool worker begins connection i's handler task (it waits for the request)
+  | request (i : Nat)          -- the request of connection i arrives and its handler reads it: in flight
+  | handlerFinish (i : Nat)    -- the method returned or raised; the reply for that connection is written
+  | clientClose (i : Nat)      -- the client drops a connection whose handler awaits a request; the handler returns
   | beginClose                 -- environment: a thread calls server_close()
   | closeStep                  -- the closing thread executes its next step
   | beginShutdown              -- environment: a thread calls shutdown() (only while serving)
   | shutdownStep
 deriving Repr, DecidableEq
 
-def setConn (cs : List Conn) (i : Nat) (c : Conn) : List Conn := cs.set i c
+/-- Number of executions of the callable a completed request of this kind stands for. -/
+def execOf : Kind → Nat
+  | .malformed => 0
+  | _ => 1
 
-/-- One step; `f` is the sequential dispatcher (reply as a function of the body). -/
-def step? (f : Nat → Nat) (s : State) : Action → Option State
+/-- The reply of the sequential dispatcher `f` (shared state, body ↦ value) to a request. -/
+def replyOf (f : Nat → Nat → Nat) (d : Nat) (k : Kind) (body : Nat) : Reply :=
+  match k with
+  | .good => .result (f d body)
+  | .notify => .empty
+  | .failing => .error (f d body)
+  | .fatal => .error (f d body)
+  | .malformed => .parseError
+
+/-- Plain server: the serving thread is inside a handler. -/
+def busy (cfg : Cfg) (s : State) : Bool := cfg.plain && s.handling.isSome
+
+/-- May the handler of connection `i` act?  (plain: only the one the serving thread is inside) -/
+def mayRun (cfg : Cfg) (s : State) (i : Nat) : Bool := !cfg.plain || s.handling == some i
+
+/-- One step; `f` is the sequential dispatcher. -/
+def step? (cfg : Cfg) (f : Nat → Nat → Nat) (s : State) : Action → Option State
   | .startServe => if s.spc = .notStarted then some { s with spc := .setServing } else none
   | .serveStep =>
     match s.spc with
@@ -78,31 +150,71 @@ def step? (f : Nat → Nat) (s : State) : Action → Option State
       -- selector.register(self) raises on a closed socket: straight to the `finally` clauses
       if s.socketOpen then some { s with isShutDown := false, spc := .loop }
       else some { s with isShutDown := false, spc := .exitResetReq }
-    | .loop => if s.shutdownReq then some { s with spc := .exitResetReq } else some s   -- select timed out
+    | .loop =>
+      if busy cfg s then none                       -- plain: the thread is inside a handler
+      else if s.shutdownReq then some { s with spc := .exitResetReq }
+      else some s                                   -- select timed out
     | .exitResetReq => some { s with shutdownReq := false, spc := .exitSetEvent }
     | .exitSetEvent => some { s with isShutDown := true, spc := .clearServing }
     | .clearServing => some { s with serving := false, spc := .finished }
     | _ => none
-  | .accept body =>
-    if s.spc = .loop ∧ s.socketOpen ∧ ¬ s.poolStopped then some { s with conns := s.conns ++ [{ body := body }] } else none
+  | .accept body kind ka =>
+    if s.spc = .loop ∧ s.socketOpen = true ∧ s.poolStopped = false ∧ busy cfg s = false then
+      some { s with conns := s.conns ++ [{ body := body, kind := kind, keepAlive := ka,
+                                           phase := if cfg.plain then .awaiting else .queued }],
+                    handling := if cfg.plain then some s.conns.length else s.handling }
+    else none
   | .handlerStart i =>
     match s.conns[i]? with
-    | some c => if ¬ c.started ∧ ¬ s.poolStopped then some { s with conns := setConn s.conns i { c with started := true } } else none
+    | some c =>
+      if cfg.plain = false ∧ c.phase = .queued ∧ s.poolStopped = false then
+        some { s with conns := s.conns.set i { c with phase := .awaiting } }
+      else none
+    | none => none
+  | .request i =>
+    match s.conns[i]? with
+    | some c =>
+      if mayRun cfg s i = true ∧ c.phase = .awaiting ∧ c.reply = none then
+        some { s with conns := s.conns.set i { c with phase := .running },
+                      disp := if cfg.sharedWrites then c.body else s.disp }
+      else none
     | none => none
   | .handlerFinish i =>
     match s.conns[i]? with
-    | some c => if c.started ∧ c.reply = none then some { s with conns := setConn s.conns i { c with reply := some (f c.body) } } else none
+    | some c =>
+      if mayRun cfg s i = true ∧ c.phase = .running then
+        if cfg.catchAll = true ∨ c.kind ≠ .fatal then
+          -- result, or an error reply built by the `except` clauses; the loop of whoever ran the handler goes on
+          some { s with conns := s.conns.set i { c with reply := some (replyOf f s.disp c.kind c.body),
+                                                        execs := c.execs + execOf c.kind,
+                                                        phase := if c.keepAlive then .awaiting else .closed },
+                        handling := if c.keepAlive then s.handling else none }
+        else
+          -- (not the code as it is) the exception escapes: socketserver closes the connection without a reply and
+          -- re-raises; on the plain server that is the serving thread, which leaves through its `finally` clauses
+          some { s with conns := s.conns.set i { c with execs := c.execs + 1, phase := .closed },
+                        handling := none,
+                        spc := if cfg.plain then .exitResetReq else s.spc }
+      else none
     | none => none
-  | .beginClose => if s.cpc = .idle then some { s with cpc := .readServing } else none
+  | .clientClose i =>
+    match s.conns[i]? with
+    | some c =>
+      if mayRun cfg s i = true ∧ c.phase = .awaiting then
+        some { s with conns := s.conns.set i { c with phase := .closed }, handling := none }
+      else none
+    | none => none
+  | .beginClose => if s.cpc = .idle then some { s with cpc := if cfg.plain then .closeSocket else .readServing } else none
   | .closeStep =>
     match s.cpc with
     | .readServing => some { s with cpc := if s.serving then .setReq else .closeSocket }
     | .setReq => some { s with shutdownReq := true, cpc := .waitEvent }
     | .waitEvent => if s.isShutDown then some { s with cpc := .closeSocket } else none
-    | .closeSocket => some { s with socketOpen := false, cpc := .stopPool }
+    | .closeSocket => some { s with socketOpen := false, cpc := if cfg.plain then .returned else .stopPool }
     | .stopPool =>
-      -- ThreadPool.stop() returns once every started handler has finished (C11); queued ones are dropped
-      if s.conns.all (fun c => !c.started || c.reply.isSome) then some { s with poolStopped := true, cpc := .returned } else none
+      -- ThreadPool.stop() joins the workers: it returns once every begun handler task has ended (C11); queued
+      -- ones are dropped
+      if s.conns.all (fun c => !c.started || c.done) then some { s with poolStopped := true, cpc := .returned } else none
     | _ => none
   | .beginShutdown =>
     -- legal use: the server is serving (the loop has been entered and not left)
@@ -115,18 +227,27 @@ def step? (f : Nat → Nat) (s : State) : Action → Option State
 
 def init : State := {}
 
-inductive Reach (f : Nat → Nat) : State → Prop where
-  | init : Reach f init
-  | step {s s' : State} (a : Action) : Reach f s → step? f s a = some s' → Reach f s'
+inductive Reach (cfg : Cfg) (f : Nat → Nat → Nat) : State → Prop where
+  | init : Reach cfg f init
+  | step {s s' : State} (a : Action) : Reach cfg f s → step? cfg f s a = some s' → Reach cfg f s'
 
 /-- Run a list of actions from a state (for the driver and for examples). -/
-def run (f : Nat → Nat) : State → List Action → Option State
+def run (cfg : Cfg) (f : Nat → Nat → Nat) : State → List Action → Option State
   | s, [] => some s
-  | s, a :: rest => match step? f s a with
-    | some s' => run f s' rest
+  | s, a :: rest => match step? cfg f s a with
+    | some s' => run cfg f s' rest
     | none => none
 
-/-- A handler task is inside its body. -/
-def inFlight (s : State) : Bool := s.conns.any fun c => c.started && c.reply.isNone
+/-- **In flight** (the reading of the property adopted here): an accepted connection whose handler has begun counts
+    as in flight until its request has been answered or the client has disconnected — whether the handler is still
+    waiting for / reading the request (`awaiting`) or dispatching it (`running`).  Stop operations wait for it: that is
+    stdlib `socketserver` semantics (the handler holds its thread until the exchange is over). -/
+def inFlight (s : State) : Bool := s.conns.any fun c => c.phase == .awaiting || c.phase == .running
+
+/-- A request is being dispatched (its method is executing). -/
+def executing (s : State) : Bool := s.conns.any fun c => c.phase == .running
+
+/-- An idle connection: its handler holds a worker while waiting for the client to send (or to go away). -/
+def idleConn (s : State) : Bool := s.conns.any fun c => c.phase == .awaiting
 
 end JRV.SL
